@@ -127,14 +127,14 @@ theorem inv_step (tbl : Table) (hL : AllLocked tbl) (s : State) (t : Nat) (s' : 
           cases hl : s.lock with
           | none =>
             rw [hl] at hi
-            simp only [hl] at hi ⊢
+            simp only at hi ⊢
             refine ⟨hi.1, ?_⟩
             simp only [calls, List.map_append, List.map_cons, List.map_nil]
             rw [seqRun_append, seqRun_cons, seqStep_quiet hq]
             exact hi.2
           | some h =>
             rw [hl] at hi
-            simp only [hl] at hi ⊢
+            simp only at hi ⊢
             obtain ⟨c', rem, pre, hs', sk, qs, hpch, hlk', hbody, hhist, hqs, hmem, hidle⟩ := hi
             refine ⟨c', rem, pre, hs', sk, qs ++ [(t, c)], hpch, hlk', hbody, by simp [hhist], ?_, hmem, hidle⟩
             intro q hqm
@@ -233,7 +233,7 @@ theorem fld_applyAccs (c : Call) (m : Mem) (body : List Acc) (f : Fld) :
   | nil => rfl
   | cons a as ih =>
     rw [applyAccs_cons, ih, fld_applyAcc]
-    cases h : opOn f a <;> simp [opsOn, List.filterMap_cons, h]
+    cases h : opOn f a <;> simp [opsOn, h]
 
 /-- the three lists agree with a `(messages, tracebacks)` pair of the specification -/
 def Good (m : Mem) (st : List Item × List Item) : Prop :=
